@@ -83,6 +83,21 @@ Definition node_of (p : str * ep) : dnode :=
          end in
   {| dn_id := nid_of i; dn_pred := e_pred e; dn_type := ty; dn_props := props; dn_carg := e_carg e |}.
 
+(* the end of a scopal link into the scope lbl whose first representative is r: a quantifier
+   selects the member of that scope it binds, if there is one (repaired code, F34) *)
+Definition scopal_target (e : ep) (lbl : str) (r : str) : str :=
+  if is_quant e then
+    match find (fun p => str_eqb (e_label (snd p)) lbl && negb (is_quant (snd p)) &&
+                         match e_iv (snd p), e_iv e with
+                         | Some a, Some b => str_eqb a b
+                         | None, None => true
+                         | _, _ => false
+                         end) eps with
+    | Some p => fst p
+    | None => r
+    end
+  else r.
+
 (* one optional link (and possibly a warning) per argument *)
 Definition arg_link (i : str) (e : ep) (rv : str * str) : list (Z * Z * str * str) * nat :=
   let '(role, tgt) := rv in
@@ -97,12 +112,12 @@ Definition arg_link (i : str) (e : ep) (rv : str * str) : list (Z * Z * str * st
       | Some c =>
           let w := match dict_get (snd c) reps with Some _ => 0%nat | None => 1%nat end in
           match dict_get (snd c) reps with
-          | Some (r :: _) => ([(nid_of i, nid_of r, role, POST_H)], w)
+          | Some (r :: _) => ([(nid_of i, nid_of (scopal_target e (snd c) r), role, POST_H)], w)
           | _ => ([], w)
           end
       | None =>
           match dict_get tgt reps with
-          | Some (r :: _) => ([(nid_of i, nid_of r, role, POST_HEQ)], 0%nat)
+          | Some (r :: _) => ([(nid_of i, nid_of (scopal_target e tgt r), role, POST_HEQ)], 0%nat)
           | _ => ([], 0%nat)
           end
       end
